@@ -67,6 +67,7 @@ VARIANTS = {
     "asan-bundled": ("clang", ["-O1", "-g", "-fno-omit-frame-pointer", "-fsanitize=address,undefined",
                                "-fno-sanitize-recover=address", "-fsanitize-recover=undefined"], False),
     "tsan": ("clang", ["-O1", "-g", "-fno-omit-frame-pointer", "-fsanitize=thread"], True),
+    "tsan-bundled": ("clang", ["-O1", "-g", "-fno-omit-frame-pointer", "-fsanitize=thread"], False),
     "plain": ("clang", ["-O2", "-g"], True),
     "plain-bundled": ("clang", ["-O2", "-g"], False),
     # development aid (./vf coverage): which repository lines do the checks execute at all
